@@ -70,7 +70,7 @@ def handlers : Site → List (Exc × Action)
   | .partHeaders => [(.ValueError, .httpErr 400), (.EOFError, .httpErr 400)]
   | .partBody => [(.ValueError, .httpErr 400), (.EOFError, .httpErr 400)]
   | .filenameStar => [(.ValueError, .httpErr 400), (.LookupError, .httpErr 400)]
-  | .jsonDecode => [(.ValueError, .httpErr 400)]
+  | .jsonDecode => [(.ValueError, .httpErr 400), (.RecursionError, .httpErr 400)]
   | .basicB64 => [(.ValueError, .httpErr 400), (.BinasciiError, .httpErr 400)]
   | .digestKeqv => [(.ValueError, .httpErr 400), (.IndexError, .httpErr 400)]
   | .encodeCharset => [(.LookupError, .tolerate), (.ValueError, .tolerate)]
@@ -133,7 +133,7 @@ def contract : Site → List Exc
 
 /-- (site, class) pairs of the contracts that the unchanged tree answers with 5xx (findings). -/
 def knownUncaught : List (Site × Exc) :=
-  [(.qvalueGzip, .ValueError), (.jsonDecode, .RecursionError), (.proxyNetloc, .ValueError),
+  [(.qvalueGzip, .ValueError), (.proxyNetloc, .ValueError),
    (.redirectNetloc, .ValueError), (.rfileRead, .ValueError), (.rfileRead, .OSError), (.rfileRead, .OverflowError)]
 
 /-- what a parser model raises: a Python exception, or `cherrypy.HTTPError(code)` directly -/
